@@ -5,7 +5,7 @@ HEAD + an rsync copy of /verif whose espada-src symlink points at that worktree)
 nor /verif is touched and several mutants run at once.  Writes /verif/mutants/RESULTS.tsv (or
 /verif/seeded/RESULTS.tsv with --seeded): one line per (patch, property).
 Sandboxes are removed at the end (worktrees included)."""
-import argparse, json, os, subprocess, sys, threading, queue, shutil, time
+import argparse, json, os, re, subprocess, sys, threading, queue, shutil, time
 
 ap = argparse.ArgumentParser()
 ap.add_argument("-k", type=int, default=4)
@@ -27,7 +27,7 @@ jobs = []
 if a.seeded:
     for d in sorted(os.listdir("/verif/seeded")):
         mp = "/verif/seeded/%s/meta.json" % d
-        if not os.path.exists(mp) or not d.startswith(a.only):
+        if not os.path.exists(mp) or not re.match(a.only, d):
             continue
         m = json.load(open(mp))
         jobs.append((d, "/verif/seeded/%s/patch.diff" % d, [m["breaks_property"]] + m.get("also_run", [])))
@@ -35,7 +35,7 @@ if a.seeded:
 else:
     for l in open("/verif/mutants/INDEX.tsv"):
         name, props = l.rstrip("\n").split("\t")
-        if not name.startswith(a.only):
+        if not re.match(a.only, name):
             continue
         jobs.append((name, "/verif/mutants/%s.diff" % name, props.split(",")))
     out_path = "/verif/mutants/RESULTS.tsv" + (".partial" if a.only else "")
